@@ -1,4 +1,5 @@
 import Driver.Linq
+import Driver.Gen
 open Lean Tangelo Tangelo.Driver Tangelo.Codec
 
 structure DState where
@@ -10,6 +11,8 @@ def handle (st : DState) (j : Json) : DState × Json :=
   | .str "sim" => (st, simOp j)
   | .str "semeq" => (st, semEqOp j)
   | .str "backend_sim" => (st, backendSimOp j)
+  | .str "exp_pauliword" => (st, expPauliwordOp j)
+  | .str "exp_qubitop" => (st, expQubitOp j)
   | .str "atoms" =>
     let unit := fun (i : Nat) => (Ang.ofList ((0 : Int) :: (List.range 6).map (fun k => if k == i then (1 : Int) else 0))).getD 0
     let es : List Json := (List.range 6).map (fun i => cycToJson (Ang.e (unit i)))
